@@ -5,8 +5,12 @@ package mc
 
 import (
 	"crypto/sha256"
+	"fmt"
 	"runtime"
+	"runtime/debug"
+	"strings"
 	"sync"
+	"sync/atomic"
 	"time"
 )
 
@@ -127,7 +131,9 @@ func BFS(cfg Config) Result {
 					if i >= len(frontier) {
 						return
 					}
-					if !cfg.Deadline.IsZero() && time.Now().After(cfg.Deadline) {
+					if (!cfg.Deadline.IsZero() && time.Now().After(cfg.Deadline)) || crashed.Load() {
+						// (after a crash of the code under test the level is abandoned: the crash is reported,
+						// and a leaked lock would make every further transition wait for the leak watch)
 						mu.Lock()
 						timedOut = true
 						mu.Unlock()
@@ -143,8 +149,7 @@ func BFS(cfg Config) Result {
 						for _, pl := range hist {
 							inst.Apply(pl, false)
 						}
-						fails := inst.Apply(l, true)
-						row[l] = succ{hash: hash(inst.Canon()), obs: inst.Obs(), fails: fails, ok: true}
+						row[l] = step(inst, l, hist)
 					}
 					out[i] = row
 				}
@@ -234,4 +239,40 @@ func hash(s string) [16]byte {
 	var o [16]byte
 	copy(o[:], h[:16])
 	return o
+}
+
+// crashed is set by the first panic of the code under test in this process.
+var crashed atomic.Bool
+
+// step applies the last letter of a history with the oracle on. A panic of the code under test (or of the lock-leak
+// watch of the native shims) is a verdict, not the death of the worker: the state is not expanded.
+func step(inst Instance, l int, hist []int) (out succ) {
+	defer func() {
+		if r := recover(); r != nil {
+			st := string(debug.Stack())
+			crashed.Store(true)
+			out = succ{hash: hash(fmt.Sprint("crashed", hist, l)), ok: true, fails: []Fail{{Sig: "crash/" + CrashSite(st), What: fmt.Sprintf("panic: %v\n%s", r, firstLines(st, 40))}}}
+		}
+	}()
+	fails := inst.Apply(l, true)
+	return succ{hash: hash(inst.Canon()), obs: inst.Obs(), fails: fails, ok: true}
+}
+
+// CrashSite extracts the first frame of the code under test from a stack trace.
+func CrashSite(stack string) string {
+	for _, ln := range strings.Split(stack, "\n") {
+		ln = strings.TrimSpace(ln)
+		if (strings.HasPrefix(ln, "github.com/openconfig/gribigo/") || strings.HasPrefix(ln, "github.com/openconfig/ygot/")) && strings.Contains(ln, "(") {
+			return strings.TrimPrefix(ln[:strings.LastIndex(ln, "(")], "github.com/openconfig/")
+		}
+	}
+	return "unknown"
+}
+
+func firstLines(s string, n int) string {
+	ls := strings.Split(s, "\n")
+	if len(ls) > n {
+		ls = ls[:n]
+	}
+	return strings.Join(ls, "\n")
 }
